@@ -56,6 +56,11 @@ inductive Msg where
   | eofS (l : Nat) | eofC (l : Nat)     -- the other end was closed
 deriving DecidableEq, Repr
 
+/-- descriptors the loop watches: the listening socket, the server end / the client end of a link -/
+inductive Fd where
+  | listen | s (l : Nat) | c (l : Nat)
+deriving DecidableEq, Repr
+
 structure Link where
   who : Who
   cOpen : Bool := true
@@ -105,13 +110,18 @@ structure N where
   links : List Link := []
   listening : Bool := false
   backlog : List Nat := []
-  q : List Msg := []
+  q : List Msg := []                  -- notifications the current loop pass is serving
+  qn : List Msg := []                 -- notifications for the next pass
+  qlate : List Msg := []              -- caused by deferred tasks (connection objects deleted, sockets closed at the end of a pass)
+  lastFds : List Fd := []             -- descriptors the last pass reported, in order
   now : Nat := 0
   tick : Nat := 0
   rawLink : Option Nat := none
   rawHold : Bool := false
   rawGot : List Byte := []
   rawEof : Bool := false
+  rawHeld : List Byte := []           -- arrived while the raw peer was not reading
+  rawEofHeld : Bool := false
   hist : List Ev := []
   alive : List (Nat × Bool) := []     -- TcpConnection objects (link, server side?)
   freed : List (Nat × Bool) := []
@@ -127,7 +137,21 @@ def N.client (n : N) (i : Nat) : Client := if i = 0 then n.c0 else n.c1
 def N.setClient (n : N) (i : Nat) (c : Client) : N := if i = 0 then { n with c0 := c } else { n with c1 := c }
 def N.link (n : N) (l : Nat) : Link := n.links.getD l { who := .raw, cOpen := false, sOpen := false }
 def N.setLink (n : N) (l : Nat) (k : Link) : N := { n with links := n.links.set l k }
-def N.push (n : N) (m : Msg) : N := { n with q := n.q ++ [m] }
+/-- bytes written to one socket within one loop pass are read by the peer in one go -/
+def mergeData (q : List Msg) (m : Msg) : Option (List Msg) :=
+  match m with
+  | .toS l d =>
+      if q.any (fun x => match x with | .toS l' _ => l' = l | _ => false) then
+        some (q.map fun x => match x with | .toS l' d0 => if l' = l then .toS l' (d0 ++ d) else x | _ => x)
+      else none
+  | .toC l d =>
+      if q.any (fun x => match x with | .toC l' _ => l' = l | _ => false) then
+        some (q.map fun x => match x with | .toC l' d0 => if l' = l then .toC l' (d0 ++ d) else x | _ => x)
+      else none
+  | _ => none
+
+def N.push (n : N) (m : Msg) : N := { n with qn := (mergeData n.qn m).getD (n.qn ++ [m]) }
+def N.pushLate (n : N) (m : Msg) : N := { n with qlate := n.qlate ++ [m] }
 def N.ev (n : N) (e : Ev) : N := { n with hist := n.hist ++ [e] }
 def N.cn (n : N) : Who → Cn
   | .cl i => (n.client i).cn
@@ -142,16 +166,33 @@ def N.free (n : N) (o : Nat × Bool) (deferred : Bool) : N :=
   { n with alive := n.alive.erase o, freed := n.freed ++ [o],
            uaf := n.uaf || (!deferred && n.busy == some o) }
 
-/-- close the server end of link l (the server-side connection is disconnected / deleted) -/
+/-- the server-side connection of link l is disconnected: its socket is closed when the deferred task
+deletes the buffered descriptor, at the end of the loop pass -/
 def N.closeS (n : N) (l : Nat) : N :=
+  let k := n.link l
+  if k.sOpen then
+    let n := n.setLink l { k with sOpen := false }
+    if k.cOpen then n.pushLate (.eofC l) else n
+  else n
+
+/-- the same for the client-side connection of link l -/
+def N.closeC (n : N) (l : Nat) : N :=
+  let k := n.link l
+  if k.cOpen then
+    let n := n.setLink l { k with cOpen := false }
+    if k.sOpen ∧ k.tok.isSome then n.pushLate (.eofS l) else n
+  else n
+
+/-- the listening socket is closed with link l still in its backlog: reset at once -/
+def N.closeSNow (n : N) (l : Nat) : N :=
   let k := n.link l
   if k.sOpen then
     let n := n.setLink l { k with sOpen := false }
     if k.cOpen then n.push (.eofC l) else n
   else n
 
-/-- close the client end of link l -/
-def N.closeC (n : N) (l : Nat) : N :=
+/-- a socket closed directly (connector giving up, raw peer) -/
+def N.closeCNow (n : N) (l : Nat) : N :=
   let k := n.link l
   if k.cOpen then
     let n := n.setLink l { k with cOpen := false }
@@ -187,7 +228,7 @@ def cnStop (n : N) (w : Who) : N :=
   let c := n.cn w
   match c.st with
   | .connecting =>
-      let n := match c.pend with | some l => n.closeC l | none => n
+      let n := match c.pend with | some l => n.closeCNow l | none => n
       n.setCn w { c with st := .inited, pend := none }
   | .delay =>
       -- exitReconnectDelayState dereferences the timer: it is gone while the code as found runs the
@@ -234,8 +275,12 @@ def clStart (cfg : Cfg) (n : N) (i : Nat) : N × Bool :=
   let c := n.client i
   if c.st ≠ .inited then (n, false)
   else
-    let n := (n.setClient i { c with st := .connecting, cn := { c.cn with fails := 0 } }).ev (.clStart i)
-    ((cnEnter cfg n (.cl i)).1, true)
+    -- `d_->state = kConnecting; return sp_connector->start();`
+    let n := (n.setClient i { c with st := .connecting }).ev (.clStart i)
+    if c.cn.st ≠ .inited then (n, false)
+    else
+      let n := n.setCn (.cl i) { c.cn with fails := 0 }
+      ((cnEnter cfg n (.cl i)).1, true)
 
 def clStop (n : N) (i : Nat) : N :=
   let c := n.client i
@@ -274,6 +319,22 @@ def runAct (cfg : Cfg) (x : Ctx) (n : N) : Act → N
 
 def runScript (cfg : Cfg) (x : Ctx) (n : N) (s : Script) : N := s.foldl (runAct cfg x) n
 
+/-- `TcpAcceptor::onClientConnected` + `TcpServer::onTcpConnected` up to the user's callback: the
+next token is issued for the accepted link -/
+def svAccept (n : N) (l : Nat) (rest : List Nat) : N :=
+  let t := n.sv.issued
+  let k := n.link l
+  let n := { n with backlog := rest,
+                    sv := { n.sv with issued := t + 1, table := n.sv.table ++ [(t, l)] },
+                    alive := n.alive ++ [(l, true)] }
+  let n := n.setLink l { k with tok := some t, held := [] }
+  -- next pass: the listening socket is reported first, then this connection's readability;
+  -- what the connected callback sends completes (write event) after that
+  let n := if rest ≠ [] then n.push .accept else n
+  let n := if k.held ≠ [] then n.push (.toS l k.held) else n
+  let n := if k.cOpen then n else n.push (.eofS l)
+  n.ev (.sv t .connected)
+
 /-! ### the kernel's notifications -/
 
 def handle (cfg : Cfg) (n : N) : Msg → N
@@ -296,19 +357,7 @@ def handle (cfg : Cfg) (n : N) : Msg → N
       | _, _ => n
   | .accept =>
       match n.sv.st, n.backlog with
-      | .running, l :: rest =>
-          let t := n.sv.issued
-          let k := n.link l
-          let n := { n with backlog := rest,
-                            sv := { n.sv with issued := t + 1, table := n.sv.table ++ [(t, l)] },
-                            alive := n.alive ++ [(l, true)] }
-          let n := n.setLink l { k with tok := some t, held := [] }
-          -- next pass: the listening socket is reported first, then this connection's readability;
-          -- what the connected callback sends completes (write event) after that
-          let n := if rest ≠ [] then n.push .accept else n
-          let n := if k.held ≠ [] then n.push (.toS l k.held) else n
-          let n := if k.cOpen then n else n.push (.eofS l)
-          runScript cfg (.sv t) (n.ev (.sv t .connected)) n.sv.sConn
+      | .running, l :: rest => runScript cfg (.sv n.sv.issued) (svAccept n l rest) n.sv.sConn
       | _, _ => n
   | .toS l d =>
       let k := n.link l
@@ -340,7 +389,7 @@ def handle (cfg : Cfg) (n : N) : Msg → N
       | .cl i =>
           let c := n.client i
           if c.st = .connected ∧ c.link = some l then runScript cfg (.cl i) (n.ev (.cl i l (.recv d))) c.sRecv else n
-      | .raw => if n.rawHold then n else { n with rawGot := n.rawGot ++ d }
+      | .raw => if n.rawHold then { n with rawHeld := n.rawHeld ++ d } else { n with rawGot := n.rawGot ++ d }
       | .kn => n
   | .sentC l =>
       match (n.link l).who with
@@ -359,24 +408,48 @@ def handle (cfg : Cfg) (n : N) : Msg → N
             let n := if c.reconnect then (clStart cfg n i).1 else n
             runScript cfg (.cl i) (n.ev (.cl i l .disconnected)) c.sDisc
           else n
-      | .raw => if n.rawHold then n else { n with rawEof := true }
+      | .raw => if n.rawHold then { n with rawEofHeld := true } else { n with rawEof := true }
       | .kn => n
 
-/-- a send-complete (write event) is served after a read event pending for the same descriptor:
-one epoll dispatch serves the read event first, and a close seen there cancels the write event -/
-def readPending (q : List Msg) : Msg → Bool
-  | .sentC l => q.any fun m => match m with | .toC l' _ => l' = l | .eofC l' => l' = l | _ => false
-  | .sentS l => q.any fun m => match m with | .toS l' _ => l' = l | .eofS l' => l' = l | _ => false
+def Msg.isSent : Msg → Bool
+  | .sentC _ | .sentS _ => true
   | _ => false
+
+/-- the descriptor a notification is reported on -/
+def Msg.fd (n : N) : Msg → Fd
+  | .accept => .listen
+  | .toS l _ | .sentS l | .eofS l => .s l
+  | .toC l _ | .sentC l | .eofC l => .c l
+  | .writable w => match (n.cn w).pend with | some l => .c l | none => .listen
+
+/-- what one loop pass serves, in epoll's order: descriptors reported by the previous pass keep their
+place at the head of the ready list, the others follow in the order they became ready; for one
+descriptor the read event is served before the write event (send-complete), and a close seen by the
+read callback cancels the write event.  Returns the descriptors in order and the notifications. -/
+def passOrder (n : N) (q : List Msg) : List Fd × List Msg :=
+  let present := (q.map (Msg.fd n)).eraseDups
+  let fds := n.lastFds.filter (present.contains ·) ++ present.filter (!n.lastFds.contains ·)
+  (fds, fds.flatMap fun f => q.filter (fun m => m.fd n == f && !m.isSent) ++ q.filter (fun m => m.fd n == f && m.isSent))
 
 def drain (cfg : Cfg) : Nat → N → N
   | 0, n => n
   | fuel + 1, n =>
       match n.q with
-      | [] => n
       | m :: rest =>
-          if readPending rest m then drain cfg fuel { n with q := rest ++ [m] }
-          else drain cfg fuel (handle cfg { n with q := rest } m)
+          -- data and EOF pending together: the read loop takes the data, the EOF is reported by the next pass
+          let isEofOf : Msg → Bool := fun x => match m, x with
+            | .toS l _, .eofS l' => l = l'
+            | .toC l _, .eofC l' => l = l'
+            | _, _ => false
+          drain cfg fuel (handle cfg { n with q := rest.filter (!isEofOf ·), qn := rest.filter isEofOf ++ n.qn } m)
+      | [] =>
+          -- end of a pass: the deferred tasks ran after the callbacks
+          if n.qn = [] ∧ n.qlate = [] then n
+          else drain cfg fuel { n with q := (passOrder n (n.qn ++ n.qlate)).2, qn := [], qlate := [],
+                                       lastFds := (passOrder n (n.qn ++ n.qlate)).1 }
+
+/-- at rest: no notification pending -/
+def N.quiet (n : N) : Bool := n.q.isEmpty && n.qn.isEmpty && n.qlate.isEmpty
 
 /-! ### operations -/
 
@@ -436,7 +509,7 @@ def step (cfg : Cfg) (n : N) : Op → N × Bool
       if n.sv.st = .none then (n, true)
       else
         let n := svStop cfg n
-        let n := n.backlog.foldl (fun n l => n.closeS l) n
+        let n := n.backlog.foldl (fun n l => n.closeSNow l) n
         ({ n with backlog := [], listening := false, sv := { n.sv with st := .none } }, true)
   | .svSend t d => svSend n t d
   | .svDisc t => svDisconnect n t
@@ -448,13 +521,15 @@ def step (cfg : Cfg) (n : N) : Op → N × Bool
   | .clInit i =>
       let c := n.client i
       if c.st ≠ .none then (n, false)
-      else (n.setClient i { c with st := .inited, cn := { c.cn with st := .inited } }, true)
+      -- the connector leaves None once it has an address and a callback
+      else (n.setClient i { c with st := .inited, cn := { c.cn with st := if c.cn.st = .none then .inited else c.cn.st } }, true)
   | .clStart i => clStart cfg n i
   | .clStop i => (clStop n i, true)
   | .clCleanup i =>
       if (n.client i).st = .none then (n, true)
       else
-        let n := clStop n i
+        -- stop(); sp_connector->cleanup() (which stops the connector once more)
+        let n := cnStop (clStop n i) (.cl i)
         let c := n.client i
         (n.setClient i { c with st := .none, reconnect := true, cn := { c.cn with st := .none, fails := 0, tries := 0 } }, true)
   | .clRec i b => (n.setClient i { n.client i with reconnect := b }, true)
@@ -483,7 +558,7 @@ def step (cfg : Cfg) (n : N) : Op → N × Bool
       if n.listening ∧ n.backlog.length ≤ backlogMax then
         let l := n.links.length
         (({ n with links := n.links ++ [({ who := .raw } : Link)], backlog := n.backlog ++ [l], rawLink := some l,
-                   rawEof := false }).push .accept, true)
+                   rawEof := false, rawHeld := [], rawEofHeld := false }).push .accept, true)
       else (n, false)
   | .rawSend d =>
       match n.rawLink with
@@ -491,9 +566,12 @@ def step (cfg : Cfg) (n : N) : Op → N × Bool
       | none => (n, false)
   | .rawClose =>
       match n.rawLink with
-      | some l => ({ (n.closeC l) with rawLink := none }, true)
+      | some l => ({ (n.closeCNow l) with rawLink := none, rawHeld := [], rawEofHeld := false }, true)
       | none => (n, false)
-  | .rawHold b => ({ n with rawHold := b }, true)
+  | .rawHold b =>
+      if b then ({ n with rawHold := true }, true)
+      else ({ n with rawHold := false, rawGot := n.rawGot ++ n.rawHeld, rawHeld := [],
+                     rawEof := n.rawEof || n.rawEofHeld, rawEofHeld := false }, true)
   | .adv ms =>
       let n := { n with now := n.now + ms }
       ((dueTimers n).foldl (fun n t => fireTimer cfg n t.1) n, true)
@@ -509,7 +587,13 @@ def drainFuel : Nat := 256
 
 /-- one operation followed by loop passes until nothing happens any more -/
 def stepQ (cfg : Cfg) (n : N) (op : Op) : N :=
-  if op.okIn n then drain cfg drainFuel (step cfg n op).1 else n
+  -- the passes that found nothing to do have emptied epoll's ready list
+  if op.okIn n then
+    -- the first pass serves what the call itself caused; the tasks it deferred run at the end of that pass
+    let n1 := (step cfg n op).1
+    drain cfg drainFuel { n1 with q := (passOrder { n1 with lastFds := [] } n1.qn).2, qn := [],
+                                  lastFds := (passOrder { n1 with lastFds := [] } n1.qn).1 }
+  else n
 
 def run (cfg : Cfg) (n : N) (ops : List Op) : N := ops.foldl (stepQ cfg) n
 
